@@ -61,6 +61,9 @@ def unit_rac(eng):
         # division and shifts of NEGATIVE differences (the quotient is the floor; shifts of negative values are arithmetic)
         ("la: nop\nnop\nnop\nnop\nlb:\n.link 1000 + 2*<<la - lb>/3>\n", 0o772), ("q = <la - lb>/3\nla: .blkb 10\nlb:\n.link 2000 + q\n", 0o1775), ("la: .blkb 7\nlb:\n.link 1000 + <<la - lb> >> 1>\n", 0o774),
         ("la: .blkb 7\nlb:\n.link 1000 + <<la - lb> % 4>\n", 0o1001),
+        # a label name shared with an EARLIER file that exports it: the file's own label, defined below the directive, takes precedence
+        (("tail:: nop\nnop\nnop\n", "head: nop\nnop\n.link 2000 + tail - head\nnop\ntail: nop\n"), 0o2006),
+        (("tail:: nop\n", "head: nop\nq = tail - head\n.link 3000 + 2*q\nnop\nnop\ntail: nop\n"), 0o3014),
         # labels in other files, directly and through aliases (D50), aliases of aliases, the directive in the second file
         ((".link 2000 + e - s\ns: .word 1\n", ".word 2\ne::\n"), 0o2004), ((".link 2000 + x - s\ns: .word 1\nx = e\n", ".word 2\ne::\n"), 0o2004),
         ((".link 2000 + x - s\ns: .word 1\nx = y\ny = e\n", ".word 2\ne::\n"), 0o2004), (("x = e\n.link 2000 + x - s\ns: .word 1\n", ".word 2\ne::\n"), 0o2004),
@@ -93,6 +96,12 @@ def unit_rac(eng):
     return dict(unit="link-rac", func="Compiler (run-time check)", paths=len(jobs) + len(jobs2), obligations=[ob], wall=0.0)
 
 
+def unit_symbol_resolve(eng, speculative, digit_name):
+    """which definition a name in the link expression denotes (Symbol._resolve, contracts/symbols_c.py; shared with C03 / C04 / C11)"""
+    from contracts import c03
+    return c03.unit_resolve(eng, speculative=speculative, digit_name=digit_name)
+
+
 def units(tier):
     us = [("rac", "unit_rac", {}), (".link", "unit_link_directive", {})]
     for settled in (False, True):
@@ -115,6 +124,8 @@ def units(tier):
         if name.startswith("promise") or name.startswith("poly-wait") or "x-x" in name or "x-y" in name or name.startswith("poly[sub") or name.startswith("awaiting"):
             us.append((name, fn, kw))
     us += structure.expr_units()
+    for sp in (False, True):
+        us.append(("symbol-resolve[%s]" % sp, "unit_symbol_resolve", dict(speculative=sp, digit_name=False)))
     return us
 
 
